@@ -309,7 +309,7 @@ impl<const P: usize> JsonPath for Sim<P> {}
 // members null / true / false of an object are flyweights: one value per thread handed out at every
 // position. The trait never says where a `Self` lives, so a node's address is not its position.
 
-use std::rc::Rc;
+use std::sync::Arc as Rc;
 
 pub enum SNode {
     Null,
